@@ -92,6 +92,12 @@ CHECKS = {
         text='Group and feature cardinalities, names and attribute values are symbolic: the real writer leaf produces the piece, the piece becomes the text of the payload token of a really parsed template, the real reader runs on the tree, '
              'and the whole-model writer text is tied to the pieces. Files, lexer and parser run for real in native batches over shapes, the name alphabet and all depth<=2 constraint trees. Bounded.',
         note='Trusted: CrossHair + patches, z3, the lexer contract (probed from and validated against the installed lexer on every run), snapshot(). N<=4/5, |name|<=3/4, rendered ints bounded. Induction over cycles is an argument on paper; cycles 2-3 run natively.'),
+    'C06': dict(
+        category='model_checking', design_ref='6 C01/C05/C06/C07/C08',
+        technique='CrossHair symbolic execution (z3) of the AFM writer leaves and whole writer composed with the real AFMReader.transform() on real parse trees whose INT / WORD tokens carry symbolic text (token substitution; lexer as a validated contract)',
+        text='Cardinalities, a WORD name and integer-range bounds are symbolic and flow writer leaf -> token of a really parsed template -> real reader; the whole writer text is tied to the pieces. '
+             'Files, lexer and parser run for real in native batches over shapes, names and depth<=2 constraint trees. Bounded.',
+        note='Trusted: CrossHair + patches, z3, the WORD contract (validated against the installed lexer). N<=4/5, |name|<=3/4, ints 0..99.'),
 }
 
 NOT_YET = {}
